@@ -51,7 +51,8 @@ def failure_order(e):
 
 def objname(e):
     """the atomic object: declaration of the member, or the parameter / variable it is reached through"""
-    f = norm(e.get('field') or '')
+    # the atomic object is the innermost member of the access path (guard._owner._block.store(): the object is _block, not the guard's reference to its owner)
+    f = norm(e.get('lfield') or e.get('field') or '')
     if f:
         return f
     r = e.get('recv') or ''
@@ -121,7 +122,21 @@ def role_ok(role, e):
     return True
 
 
-def role_from_callers(db, key, depth=3, _seen=None):
+def _callers_of_instance(db, inst):
+    """callers of one instantiation of a template helper (a helper that takes the memory order as a template argument has one caller per order)"""
+    import collections
+    idx = db.__dict__.get('_inst_callers_idx')
+    if idx is None:
+        idx = collections.defaultdict(set)
+        for f in db.all_instances():
+            for e in f.events():
+                if e.k in ('call', 'construct') and e.get('callee_key') and e.get('callee_inst'):
+                    idx[e['callee_inst']].add(f['nname'])
+        db.__dict__['_inst_callers_idx'] = idx
+    return idx.get(inst, set())
+
+
+def role_from_callers(db, key, depth=3, _seen=None, inst=None):
     """an operation found in a function the table does not know: when that function is a helper whose callers (transitively) are all
     tabled for the same operation on the same object with one and the same role, the operation inherits that role"""
     from .rules import callers_of
@@ -130,7 +145,7 @@ def role_from_callers(db, key, depth=3, _seen=None):
     if fn in _seen or depth < 0:
         return None
     _seen.add(fn)
-    cs = callers_of(db, fn)
+    cs = (_callers_of_instance(db, inst) if inst else None) or callers_of(db, fn)
     if not cs:
         return None
     roles = set()
@@ -172,7 +187,7 @@ def check_roles(ctx, db, rid, only_functions=None, only_objects=None, floor=1):
         key = (f['nname'], opname(e), objname(e))
         ent = ROLES.get(key)
         if ent is None:
-            ent = role_from_callers(db, key)
+            ent = role_from_callers(db, key, inst=f.get('inst'))
         if ent is None and key[2] in ANY_OBJECTS:
             ent = ('any', ANY_OBJECTS[key[2]])
         if ent is None and (rel(success_order(e)) and acq(success_order(e))):
